@@ -1879,7 +1879,7 @@ func (e *Engine) siteAsserts(fr *Frame, st *State, instr ssa.Instruction) {
 		env := e.loopEnv(fr, st)
 		t, err := e.tryEvalBool(env, sa.Cl.Expr)
 		if err != nil {
-			panic(engErr(fmt.Sprintf("assert_at %q: %v", sa.Text, err)))
+			panic(fmt.Sprintf("contract error: assert_at %q: %v", sa.Text, err))
 		}
 		ob := e.vc.oblige(fmt.Sprintf("assert_at:%d#", k+1), st.pc, t, fmt.Sprintf("before %q: %s", sa.Text, sa.Cl.Text))
 		ob.Props = sa.Cl.Props
